@@ -29,10 +29,12 @@ def run(unit, functions, repo, scratch, timeout=1800, deep=False):
     # the harness becomes a module of the scratch copy (never of /repo); `//! host: src/x.rs` makes it a child
     # module of that file so that it can reach the file's private items
     with open(os.path.join(copy, "src", "verif_bounded.rs"), "w") as hf:
-        hf.write(open(src).read())
+        # failures are printed the moment they are found (a later panic or hang must not lose them)
+        hf.write(open(src).read().replace("fails.push(", "verif_push(&mut fails, "))
         hf.write("\n// appended by vx/bounded.py: the case being exercised, printed by the runner's panic hook\n"
                  "pub static VERIF_CASE: std::sync::Mutex<String> = std::sync::Mutex::new(String::new());\n"
                  "pub static VERIF_CASES: std::sync::atomic::AtomicUsize = std::sync::atomic::AtomicUsize::new(0);\n"
+                 "#[allow(dead_code)]\npub fn verif_push<V: std::borrow::BorrowMut<Vec<String>>>(v: &mut V, s: String) { use std::io::Write; println!(\"{}\", s); let _ = std::io::stdout().flush(); v.borrow_mut().push(s); }\n"
                  "#[allow(dead_code)]\npub fn verif_scale(n: u64) -> u64 { n * std::env::var(\"VERIF_BOUNDED_SCALE\").ok().and_then(|x| x.parse::<u64>().ok()).unwrap_or(1) }\n"
                  "#[allow(dead_code)]\npub fn verif_case(s: String) { VERIF_CASES.fetch_add(1, std::sync::atomic::Ordering::Relaxed); if let Ok(mut g) = VERIF_CASE.lock() { *g = s; } }\n")
     host = None
@@ -118,8 +120,10 @@ def run(unit, functions, repo, scratch, timeout=1800, deep=False):
                 renv.setdefault("VERIF_HANG_S", "600")
             q = subprocess.run([exe] + ([fn] if fn else []), cwd=runner, env=renv, stdout=subprocess.PIPE, stderr=subprocess.PIPE, text=True, timeout=timeout)
             fdone = False
+            seen_lines = set()
             for line in q.stdout.split("\n"):
-                if line.startswith("FAIL "):
+                if line.startswith("FAIL ") and line not in seen_lines:
+                    seen_lines.add(line)
                     _, f2, clause, rest = line.split(" ", 3)
                     fails.append(dict(function=f2, clause=clause, input=rest + vnote))
                 if line.startswith("BOUNDED-CASES"):
